@@ -1,6 +1,391 @@
-import SqiModel.Intbig
+/-
+C17 — integer and number-theoretic primitives return exact results.
+
+Every theorem is about the hand models in `SqiModel.Intbig`, `SqiModel.NumberTheory`, `SqiModel.Kernels`
+(GMP modelled as exact `Int`), which are run against the real C functions on every check run
+(tools/harness/drv_int.c, tools/props/c17.py).  `Res.ok v` = the C returned 1 with output v, `Res.fail` = it
+returned 0, `Res.ub` = the C aborts / executes undefined behaviour / does not terminate.
+
+Statements are unbounded in their quantifiers (all integers, all primes, all byte streams, all matrices).
+Where the full-strength statement is false of the code the negation is proved with a witness that is replayed
+on the real code by the check (see notes/C17.md).
+-/
+import SqiProofs.C17.Div
+import SqiProofs.C17.Gcd
+import SqiProofs.C17.Sqrt3
+import SqiProofs.C17.Rand
+import SqiProofs.C17.Cornacchia
+import SqiProofs.C17.Conv
+import SqiProofs.Primes
+
 namespace SqiProps.C17
-open SqiModel.Intbig
-theorem div_identity (a b : Int) : (ibzDiv a b).1 * b + (ibzDiv a b).2 = a := by
-  simp only [ibzDiv]; rw [Int.mul_comm]; exact Int.mul_tdiv_add_tmod a b
+open SqiModel.Intbig SqiModel.NumberTheory SqiProofs.C17
+
+/-! ## 1. Division and reduction conventions (all integers, divisor ≠ 0 exactly as GMP requires) -/
+
+/-- `ibz_div`: a = q·b + r, |r| < |b|, r has the sign of a (quotient rounded toward zero) -/
+theorem div_spec (a b : Int) (hb : b ≠ 0) :
+    (ibzDiv a b).1 * b + (ibzDiv a b).2 = a ∧ (ibzDiv a b).2.natAbs < b.natAbs ∧
+    (0 ≤ a → 0 ≤ (ibzDiv a b).2) ∧ (a ≤ 0 → (ibzDiv a b).2 ≤ 0) :=
+  ⟨Int.tdiv_mul_add_tmod a b, tmod_natAbs_lt a b hb, Int.tmod_nonneg b, tmod_nonpos a b⟩
+example : (ibzDiv (-7) 2 = (-3, -1)) ∧ (2 : Int) ≠ 0 := by decide
+
+/-- `ibz_div_floor`: a = q·d + r with r in [0,d) for d > 0 and in (d,0] for d < 0 -/
+theorem div_floor_spec (n d : Int) (hd : d ≠ 0) :
+    (ibzDivFloor n d).1 * d + (ibzDivFloor n d).2 = n ∧
+    (0 < d → 0 ≤ (ibzDivFloor n d).2 ∧ (ibzDivFloor n d).2 < d) ∧
+    (d < 0 → d < (ibzDivFloor n d).2 ∧ (ibzDivFloor n d).2 ≤ 0) :=
+  ⟨Int.fdiv_mul_add_fmod n d, fmod_range_pos n d, fmod_range_neg n d⟩
+example : ibzDivFloor (-7) 2 = (-4, 1) ∧ ibzDivFloor 7 (-2) = (-4, -1) := by decide
+
+/-- `ibz_mod`: the non-negative remainder, whatever the signs -/
+theorem mod_spec (a b : Int) (hb : b ≠ 0) :
+    0 ≤ ibzMod a b ∧ ibzMod a b < b.natAbs ∧ b ∣ a - ibzMod a b :=
+  ⟨Int.emod_nonneg a hb, Int.emod_lt a hb,
+   ⟨a / b, by have := Int.emod_add_mul_ediv a b; simp only [ibzMod]; omega⟩⟩
+example : ibzMod (-7) (-3) = 2 := by decide
+
+/-- `ibz_div_2exp`: |q| = ⌊|a| / 2^e⌋ with the sign of a (truncation toward zero) -/
+theorem div_2exp_spec (a : Int) (e : Nat) :
+    (ibzDiv2exp a e).natAbs = a.natAbs / 2 ^ e ∧ (0 ≤ a → 0 ≤ ibzDiv2exp a e) ∧ (a ≤ 0 → ibzDiv2exp a e ≤ 0) := by
+  refine ⟨?_, ?_, ?_⟩
+  · simp only [ibzDiv2exp, Int.natAbs_tdiv]
+    have : ((2 : Int) ^ e).natAbs = 2 ^ e := by rw [Int.natAbs_pow]; rfl
+    rw [this]; rfl
+  · intro h; exact Int.tdiv_nonneg h (by positivity)
+  · intro h
+    have := Int.tdiv_nonneg (Int.neg_nonneg_of_nonpos h) (show (0 : Int) ≤ 2 ^ e by positivity)
+    rw [Int.neg_tdiv] at this; simp only [ibzDiv2exp]; omega
+example : ibzDiv2exp (-7) 1 = -3 := by decide
+
+/-- `ibz_rounded_div`: a nearest integer to a/b -/
+theorem rounded_div_spec (a b : Int) (hb : b ≠ 0) : 2 * (a - ibzRoundedDiv a b * b).natAbs ≤ b.natAbs :=
+  roundedDiv_near a b hb
+example : ibzRoundedDiv 7 2 = 3 ∧ ibzRoundedDiv (-7) 2 = -3 ∧ ibzRoundedDiv 8 3 = 3 ∧ ibzRoundedDiv (-8) 3 = -3 := by decide
+
+/-! ## 2. gcd, Bézout pair, annihilators, modular inverse, CRT -/
+
+/-- `ibz_xgcd`: g = gcd(a,b) ≥ 0 and u·a + v·b = g, for all integers incl. zero and negative -/
+theorem xgcd_spec (a b : Int) :
+    (ibzXgcd a b).1 = (Int.gcd a b : Int) ∧ (ibzXgcd a b).2.1 * a + (ibzXgcd a b).2.2 * b = (ibzXgcd a b).1 :=
+  gcdext_spec a b
+example : ibzXgcd 12 (-18) = (6, -1, -1) ∧ ibzXgcd 0 0 = (0, 0, 0) := by decide
+
+/-- `ibz_xgcd_ann` (a, b not both zero — the C divides by the gcd): Bézout and annihilator relations -/
+theorem xgcd_ann_spec (a b : Int) (h : a ≠ 0 ∨ b ≠ 0) :
+    let r := ibzXgcdAnn a b
+    r.1 = (Int.gcd a b : Int) ∧ r.2.2.2.1 * a + r.2.2.2.2 * b = r.1 ∧
+    r.2.1 * a + r.2.2.1 * b = 0 ∧ r.2.1 * r.1 = b ∧ r.2.2.1 * r.1 = -a :=
+  xgcdAnn_spec a b h
+example : ibzXgcdAnn 12 (-18) = (6, -3, -2, -1, -1) := by decide
+
+/-- `ibz_invmod` (m ≠ 0): returns 1 exactly when gcd(a,m) = 1, and then the inverse in [0,|m|) -/
+theorem invmod_spec (a m : Int) (hm : m ≠ 0) :
+    (∀ r, ibzInvmod a m = .ok r → 0 ≤ r ∧ r < m.natAbs ∧ (a * r) % m = 1 % m) ∧
+    (ibzInvmod a m = .fail ↔ Int.gcd a m ≠ 1) ∧ ibzInvmod a m ≠ .ub :=
+  ⟨fun r h => ⟨(invmod_ok a m r hm h).1, (invmod_ok a m r hm h).2.1, (invmod_ok a m r hm h).2.2.1⟩,
+   invmod_fail_iff a m, invmod_ne_ub a m⟩
+example : ibzInvmod 3 (-7) = .ok 5 ∧ ibzInvmod 4 6 = .fail := by decide
+
+/-- `ibz_crt` as coded from the Bézout pair: for coprime non-zero moduli the result is the unique
+    representative in [0, |mod_a·mod_b|) congruent to a mod mod_a and to b mod mod_b -/
+theorem crt_spec (a b ma mb : Int) (hcop : Int.gcd ma mb = 1) (hma : ma ≠ 0) (hmb : mb ≠ 0) :
+    ibzCrt a b ma mb % ma = a % ma ∧ ibzCrt a b ma mb % mb = b % mb ∧
+    0 ≤ ibzCrt a b ma mb ∧ ibzCrt a b ma mb < ((ma * mb).natAbs : Int) :=
+  crt_spec' a b ma mb hcop hma hmb
+example : ibzCrt 2 3 5 7 = 17 ∧ Int.gcd 5 7 = 1 := by decide
+
+/-! ## 3. Square roots modulo a prime — every prime, every class mod 8, and p = 2
+
+Full-strength statement (FALSE of the code):
+  `∀ p prime, ∀ a, (∀ r, sqrt_mod_p a p = ok r → r² ≡ a (mod p)) ∧ (IsSquare (a : ZMod p) → ∃ r, sqrt_mod_p a p = ok r)`.
+The first conjunct holds for every prime (`sqrt_mod_p_sound`).  The second fails in exactly two ways, both proved
+below and replayed on the real code: a ≡ 0 (mod p) is reported as a non-square (`sqrt_mod_p_zero_fails`), and for
+p = 2 the routine never returns a root (`sqrt_mod_p_two`: failure for even a, GMP abort for odd a).
+`sqrt_mod_p_complete_partial` is the second conjunct under the hypotheses p ≠ 2, a ≢ 0. -/
+
+/-- soundness for EVERY prime p (p ≡ 1, 3, 5, 7 mod 8 and p = 2) and every integer a -/
+theorem sqrt_mod_p_sound (pn : Nat) (hp : pn.Prime) (a r : Int) (h : ibzSqrtModP a pn = .ok r) :
+    0 ≤ r ∧ r < pn ∧ (r * r - a) % pn = 0 := by
+  haveI := Fact.mk hp
+  by_cases hp2 : pn = 2
+  · subst hp2
+    have := sqrtModP_two a
+    rw [show ((2 : Nat) : Int) = 2 from rfl] at h
+    rw [this] at h; split at h <;> exact absurd h (by simp)
+  · by_cases hj : ((a : ZMod pn)) ^ (pn / 2) = 1
+    · obtain ⟨r', h1, h2, h3, h4⟩ := sqrtModP_ok_of_jacobi pn hp2 a hj
+      rw [h1] at h; injection h with h; subst h
+      refine ⟨h2, h3, ?_⟩
+      apply Int.emod_eq_zero_of_dvd
+      rw [← ZMod.intCast_zmod_eq_zero_iff_dvd]
+      push_cast; rw [← pow_two, h4, sub_self]
+    · rw [sqrtModP_fail_of_jacobi pn hp2 a hj] at h; exact absurd h (by simp)
+
+/-- completeness for every odd prime and every non-zero square (Euler's criterion + Tonelli–Shanks invariant) -/
+theorem sqrt_mod_p_complete_partial (pn : Nat) (hp : pn.Prime) (hp2 : pn ≠ 2) (a : Int)
+    (h0 : (a : ZMod pn) ≠ 0) (hsq : IsSquare (a : ZMod pn)) : ∃ r, ibzSqrtModP a pn = .ok r := by
+  haveI := Fact.mk hp
+  obtain ⟨r, h, _⟩ := sqrtModP_ok_of_jacobi pn hp2 a ((ZMod.euler_criterion pn h0).mp hsq)
+  exact ⟨r, h⟩
+
+/-- for an odd prime the routine returns 0 exactly on non-squares and on a ≡ 0; it never aborts -/
+theorem sqrt_mod_p_fail_iff (pn : Nat) (hp : pn.Prime) (hp2 : pn ≠ 2) (a : Int) :
+    (ibzSqrtModP a pn = .fail ↔ ((a : ZMod pn) = 0 ∨ ¬ IsSquare (a : ZMod pn))) ∧ ibzSqrtModP a pn ≠ .ub := by
+  haveI := Fact.mk hp
+  by_cases hj : ((a : ZMod pn)) ^ (pn / 2) = 1
+  · obtain ⟨r, h, _⟩ := sqrtModP_ok_of_jacobi pn hp2 a hj
+    have h0 : (a : ZMod pn) ≠ 0 := by
+      intro h0; rw [h0, zero_pow (by have := hp.two_le; omega)] at hj; exact zero_ne_one hj
+    refine ⟨?_, by rw [h]; simp⟩
+    rw [h]; simp only [reduceCtorEq, false_iff, not_or, not_not]
+    exact ⟨h0, (ZMod.euler_criterion pn h0).mpr hj⟩
+  · have hf := sqrtModP_fail_of_jacobi pn hp2 a hj
+    refine ⟨?_, by rw [hf]; simp⟩
+    rw [hf]; simp only [true_iff]
+    by_cases h0 : (a : ZMod pn) = 0
+    · exact Or.inl h0
+    · exact Or.inr (fun hs => hj ((ZMod.euler_criterion pn h0).mp hs))
+
+/-- NEGATION of completeness, part 1: 0 is a square but is reported as "no square root", for every odd prime -/
+theorem sqrt_mod_p_zero_fails (pn : Nat) (hp : pn.Prime) (hp2 : pn ≠ 2) (a : Int) (h0 : (a : ZMod pn) = 0) :
+    ibzSqrtModP a pn = .fail ∧ IsSquare (a : ZMod pn) :=
+  ⟨((sqrt_mod_p_fail_iff pn hp hp2 a).1).mpr (Or.inl h0), ⟨0, by rw [h0]; simp⟩⟩
+example : ibzSqrtModP 17 17 = .fail := by decide
+
+/-- NEGATION of completeness, part 2 (p = 2): failure for even a, abort inside GMP for odd a; never a root -/
+theorem sqrt_mod_p_two (a : Int) : ibzSqrtModP a 2 = if a % 2 = 0 then .fail else .ub := sqrtModP_two a
+example : ibzSqrtModP 1 2 = .ub ∧ IsSquare (1 : ZMod 2) := ⟨by decide, ⟨1, by decide⟩⟩
+
+-- non-vacuity: one prime of every class mod 8, a deep Tonelli–Shanks prime (p − 1 = 3·2^30), and a scheme prime
+example : ibzSqrtModP 2 17 = .ok 6 ∧ ibzSqrtModP 2 7 = .ok 4 ∧ ibzSqrtModP 3 11 = .ok 5 ∧ ibzSqrtModP 4 13 = .ok 11 ∧
+    ibzSqrtModP 5 29 = .ok 18 := by decide
+example : ibzSqrtModP 2 3221225473 = .ok 1576605034 := by decide +kernel
+example : (SqiGen.L1.FP_p).Prime ∧ SqiGen.L1.FP_p % 8 = 7 := ⟨SqiProofs.Primes.L1_prime, by decide +kernel⟩
+
+/-- `ibz_sqrt_mod_2p` for an odd prime p: succeeds exactly when `ibz_sqrt_mod_p` does, and the result is a square
+    root of a modulo 2p -/
+theorem sqrt_mod_2p_spec (pn : Nat) (hp : pn.Prime) (hp2 : pn ≠ 2) (a r : Int) (h : ibzSqrtMod2P a pn = .ok r) :
+    (r * r - a) % (2 * pn) = 0 := by
+  unfold ibzSqrtMod2P at h
+  split at h
+  · rename_i r0 hr0
+    obtain ⟨_, _, h3⟩ := sqrt_mod_p_sound pn hp a r0 hr0
+    have hodd : (pn : Int) % 2 = 1 := by
+      rcases hp.eq_two_or_odd with h | h
+      · exact absurd h hp2
+      · omega
+    have hpar : ∀ z : Int, (z * z) % 2 = z % 2 := by
+      intro z; rw [Int.mul_emod]; rcases Int.emod_two_eq_zero_or_one z with h | h <;> rw [h] <;> rfl
+    have hdp : (pn : Int) ∣ r * r - a ∧ r % 2 = a % 2 := by
+      split at h
+      · rename_i hne
+        injection h with h; subst h
+        refine ⟨?_, by omega⟩
+        have : (r0 + ↑pn) * (r0 + ↑pn) - a = (r0 * r0 - a) + ↑pn * (2 * r0 + ↑pn) := by ring
+        rw [this]; exact Int.dvd_add (Int.dvd_of_emod_eq_zero h3) (Dvd.intro _ rfl)
+      · rename_i heq
+        injection h with h; subst h
+        exact ⟨Int.dvd_of_emod_eq_zero h3, by omega⟩
+    have hd2 : (2 : Int) ∣ r * r - a := by
+      apply Int.dvd_of_emod_eq_zero
+      have := hpar r; omega
+    have hcop : IsCoprime (2 : Int) (pn : Int) := by
+      rw [Int.isCoprime_iff_gcd_eq_one]
+      have : Nat.Coprime 2 pn := (Nat.coprime_primes Nat.prime_two hp).mpr (Ne.symm hp2)
+      simpa [Int.gcd] using this
+    exact Int.emod_eq_zero_of_dvd (hcop.mul_dvd hd2 hdp.1)
+  · exact absurd h (by simp)
+  · exact absurd h (by simp)
+example : ibzSqrtMod2P 2 7 = .ok 4 ∧ ibzSqrtMod2P 9 7 = .ok 11 := by decide
+
+/-! ## 4. Digit-array conversions round-trip (and the missing bound check) -/
+
+/-- `ibz_to_digit_array` then `ibz_copy_digits`: if the destination is large enough the digits represent |x|;
+    if it is not, the C writes past the array (`ub`) — `ibz_to_digits` has no bound check (feeds C03) -/
+theorem digits_to_from (n : Nat) (x : Int) :
+    (∀ ds, ibzToDigitArray n x = .ok ds → ds.length = n ∧ digitsOk ds ∧ ibzCopyDigits ds = (x.natAbs : Int)) ∧
+    ibzToDigitArray n x ≠ .fail := by
+  unfold ibzToDigitArray
+  simp only
+  have hls : ibzCopyDigits (if x = 0 then [0] else limbs x.natAbs) = (x.natAbs : Int) ∧
+      digitsOk (if x = 0 then [0] else limbs x.natAbs) := by
+    split
+    · rename_i h0; subst h0
+      exact ⟨rfl, fun d hd => by simp at hd; omega⟩
+    · exact limbs_spec x.natAbs
+  generalize (if x = 0 then [0] else limbs x.natAbs) = ls at hls
+  constructor
+  · intro ds h
+    split at h
+    · rename_i hlen
+      injection h with h; subst h
+      refine ⟨by simp only [List.length_append, List.length_replicate]; omega, ?_, ?_⟩
+      · intro d hd
+        rcases List.mem_append.mp hd with hd | hd
+        · exact hls.2 d hd
+        · have := List.eq_of_mem_replicate hd; omega
+      · rw [copyDigits_append_zeros]; exact hls.1
+    · exact absurd h (by simp)
+  · split <;> simp
+
+/-- `ibz_copy_digits` then `ibz_to_digit_array` gives back the same digits (n ≥ 1 digits, each < 2^64) -/
+theorem digits_from_to (ds : List Nat) (hne : ds ≠ []) (hok : digitsOk ds) :
+    ibzToDigitArray ds.length (ibzCopyDigits ds) = .ok ds := by
+  have hlt := copyDigits_lt ds hok
+  have hnn := copyDigits_nonneg ds
+  have hlen : 1 ≤ ds.length := by cases ds with | nil => exact absurd rfl hne | cons _ _ => simp
+  have hfit : (if ibzCopyDigits ds = 0 then [0] else limbs (ibzCopyDigits ds).natAbs).length ≤ ds.length := by
+    split
+    · simpa using hlen
+    · apply limbsAux_length_le
+      have : ((ibzCopyDigits ds).natAbs : Int) < 2 ^ (64 * ds.length) := by omega
+      exact_mod_cast this
+  obtain ⟨h1, _⟩ := digits_to_from ds.length (ibzCopyDigits ds)
+  have hres : ∃ r, ibzToDigitArray ds.length (ibzCopyDigits ds) = .ok r := by
+    unfold ibzToDigitArray; simp only; rw [if_pos hfit]; exact ⟨_, rfl⟩
+  obtain ⟨r, hr⟩ := hres
+  obtain ⟨hl, hd, hv⟩ := h1 r hr
+  rw [hr]; congr 1
+  exact copyDigits_inj r ds hl hd hok (by rw [hv]; omega)
+example : ibzToDigitArray 2 (2 ^ 64 + 5) = .ok [5, 1] ∧ ibzToDigitArray 1 (2 ^ 64 + 5) = .ub ∧
+    ibzCopyDigits [5, 1] = 2 ^ 64 + 5 := by decide
+
+/-! ## 5. Sampling in an interval over an arbitrary byte stream -/
+
+/-- every accepted sample lies in [a,b] — for EVERY byte stream (termination = the result is `ok`; an exhausted
+    stream is a failing `randombytes`, result `fail`), unbounded in the width b − a, including a = b;
+    holds whatever the mask computation does (first argument) -/
+theorem rand_interval_range (maskOf : Nat → Option Nat) (a b : Int) (stream : List Nat) (r : Int) (rest : List Nat)
+    (h : ibzRandIntervalWith maskOf a b stream = .ok (r, rest)) : a ≤ r ∧ r ≤ b :=
+  randIntervalWith_range maskOf a b stream r rest h
+
+/-- the C as written (`ibzRandInterval`): same statement -/
+theorem rand_interval_range_c (a b : Int) (stream : List Nat) (r : Int) (rest : List Nat)
+    (h : ibzRandInterval a b stream = .ok (r, rest)) : a ≤ r ∧ r ≤ b :=
+  randIntervalWith_range _ a b stream r rest h
+example : ibzRandInterval 10 310 [7, 1] = .ok (10 + 7 + 256, []) ∧ ibzRandInterval 5 5 [1, 2] = .ok (5, []) ∧
+    ibzRandInterval 0 255 [] = .fail := by decide
+
+/-- safety of the mask shift: `((mp_limb_t)-1) >> (64 − len_bits % 64)` is defined iff len_bits % 64 ≠ 0.
+    Full-strength safety ("never UB for a ≤ b") is FALSE: -/
+theorem rand_interval_shift_ok (a b : Int) (stream : List Nat) :
+    ibzRandInterval a b stream ≠ .ub ↔ (randParams a b).lenBits % 64 ≠ 0 := by
+  rw [ne_eq, randInterval_ub_iff]
+/-- negation witness (replayed under UBSan): a = 0, b = 2^64 − 1 -/
+theorem rand_interval_shift_ub_witness : ∀ stream, ibzRandInterval 0 (2 ^ 64 - 1) stream = .ub := by
+  intro stream; rw [randInterval_ub_iff]; decide
+example : (randParams 0 (2 ^ 64 - 2 ^ 32)).lenBits % 64 = 0 ∧ (randParams 0 (2 ^ 63 - 1)).lenBits % 64 ≠ 0 := by decide
+
+/-- `ibz_rand_interval_minm_m`: result in [−m, m] (0 ≤ m < 2^62) -/
+theorem rand_interval_minm_m_range (m : Int) (hm : 0 ≤ m ∧ m < 2 ^ 62) (stream : List Nat) (r : Int) (rest : List Nat)
+    (h : ibzRandIntervalMinmM m stream = .ok (r, rest)) : -m ≤ r ∧ r ≤ m := by
+  unfold ibzRandIntervalMinmM at h
+  split at h
+  · exact absurd h (by simp)
+  · split at h
+    · rename_i r0 rest0 h0
+      injection h with h; injection h with h1 h2
+      have := rand_interval_range_c 0 (2 * m) stream r0 rest0 h0
+      have : m % 2 ^ 64 = m := Int.emod_eq_of_lt hm.1 (by omega)
+      omega
+    · exact absurd h (by simp)
+    · exact absurd h (by simp)
+
+/-! ## 6. Cornacchia variants and norm-equation helper: never a false solution
+
+Completeness (a solution exists ⇒ it is found) is NOT proved (partial): it needs the theory of the Euclidean
+descent; it is exercised by the correspondence generator on planted-solution inputs only. -/
+
+/-- `ibz_cornacchia_prime`: no hypothesis on n, p at all -/
+theorem cornacchia_prime_sound (n p x y : Int) (h : ibzCornacchiaPrime n p = .ok (x, y)) : x * x + n * (y * y) = p :=
+  cornacchiaPrime_sound n p x y h
+example : ibzCornacchiaPrime 1 29 = .ok (5, 2) ∧ ibzCornacchiaPrime 1 2 = .ok (1, 1) ∧ ibzCornacchiaPrime 2 7 = .fail := by decide
+
+/-- `ibz_cornacchia_special_prime` (x² + n·y² = 2^e·p): sound under the documented contract n ≡ 3 (mod 4)
+    and gcd(p, n) = 1.  Full strength (no coprimality hypothesis) is FALSE — next theorem. -/
+theorem cornacchia_special_prime_sound_partial (xy0 : Int × Int) (n p : Int) (e : Nat) (x y : Int)
+    (hn : n % 4 = 3) (hg : (Int.gcd p n : Int) = 1)
+    (h : ibzCornacchiaSpecialPrime xy0 n p e = .ok (x, y)) : x * x + n * (y * y) = p * 2 ^ e := by
+  apply cornacchiaSpecialPrime_sound xy0 n p e x y _ _ h
+  · rintro ⟨_, h1⟩; omega
+  · right; rw [(gcdext_spec p n).1]; exact hg
+/-- negation witness (replayed on the real code): p | n makes the routine return 1 with untouched outputs -/
+theorem cornacchia_special_prime_false_solution :
+    ibzCornacchiaSpecialPrime (0, 0) 7 7 1 = .ok (0, 0) ∧ (0 : Int) * 0 + 7 * (0 * 0) ≠ 7 * 2 ^ 1 := by decide
+example : ibzCornacchiaSpecialPrime (0, 0) 3 13 2 = .ok (7, 1) ∧ (3 : Int) % 4 = 3 ∧ Int.gcd 13 3 = 1 := by decide
+
+/-- `ibz_cornacchia_extended`: x² + y² = n for every prime list, every primality oracle (`ibz_probab_prime` is a
+    parameter), every `bad_primes_prod`; |n| < 2^B, B ≤ 2^63 so that the int64 valuation counters cannot wrap -/
+theorem cornacchia_extended_sound (isPP : Int → Bool) (n : Int) (primes : List Int) (bad : Option Int) (x y : Int)
+    (B : Nat) (hB1 : 1 ≤ B) (hB : B ≤ 2 ^ 63) (hn : n.natAbs < 2 ^ B)
+    (h : ibzCornacchiaExtended isPP n primes bad = .ok (x, y)) : x * x + y * y = n :=
+  cornacchiaExtended_sound isPP n primes bad x y B hB1 hB hn h
+example : ibzCornacchiaExtended probabPrime 725 [2, 5, 13] none = .ok (7, 26) ∧ (725 : Int).natAbs < 2 ^ 10 := by decide +kernel
+
+/-- integer core of one trial of `represent_integer` / `represent_integer_non_diag`:
+    x² + y² + p·(z² + t²) = 4·n_gamma -/
+theorem represent_integer_trial_sound (isPP : Int → Bool) (nGamma p z t : Int) (primes : List Int) (bad : Option Int)
+    (x y z' t' : Int) (B : Nat) (hB1 : 1 ≤ B) (hB : B ≤ 2 ^ 63)
+    (hn : (nGamma * 2 * 2 - (z * z + t * t) * p).natAbs < 2 ^ B)
+    (h : representIntegerTrial isPP nGamma p z t primes bad = .ok (x, y, z', t')) :
+    x * x + y * y + p * (z' * z' + t' * t') = 4 * nGamma := by
+  unfold representIntegerTrial at h
+  simp only at h
+  split at h
+  · rename_i x0 y0 hc
+    injection h with h
+    simp only [Prod.mk.injEq] at h
+    obtain ⟨rfl, rfl, rfl, rfl⟩ := h
+    have := cornacchia_extended_sound isPP _ primes bad _ _ B hB1 hB hn hc
+    linear_combination this
+  · exact absurd h (by simp)
+  · exact absurd h (by simp)
+
+/-! ## 7. `ibz_get` and `two_adic_valuation(ibz_get(x))` -/
+
+/-- `ibz_get`: congruent to x modulo 2^63, in the int64 range, exact when x fits -/
+theorem ibz_get_spec (x : Int) :
+    (ibzGet x - x) % 2 ^ 63 = 0 ∧ -(2 ^ 63) ≤ ibzGet x ∧ ibzGet x < 2 ^ 63 ∧
+    (-(2 ^ 63) ≤ x ∧ x < 2 ^ 63 → ibzGet x = x) := ibzGet_spec x
+
+/-- the composition used by the signers is the 2-adic valuation of x exactly when 2^32 ∤ x …
+    Full-strength statement ("for every x ≠ 0") is FALSE, see `two_adic_valuation_truncates`. -/
+theorem two_adic_valuation_spec_partial (x : Int) (h : x % 2 ^ 32 ≠ 0) :
+    (2 : Int) ^ twoAdicValuationOfIbz x ∣ x ∧ ¬ (2 : Int) ^ (twoAdicValuationOfIbz x + 1) ∣ x := by
+  rw [twoAdicValuationOfIbz_eq, if_neg h]
+  have hw0 := Int.emod_nonneg x (show (2 : Int) ^ 32 ≠ 0 by decide)
+  have hw1 := Int.emod_lt_of_pos x (show (0 : Int) < 2 ^ 32 by decide)
+  have hpos : 0 < (x % 2 ^ 32).toNat := by omega
+  have hlt : (x % 2 ^ 32).toNat < 2 ^ 32 := by omega
+  obtain ⟨h1, h2, h3⟩ := trailingZeros_spec' 32 _ hpos hlt
+  generalize trailingZeros 32 (x % 2 ^ 32).toNat = t at h1 h2 h3
+  generalize hw : (x % 2 ^ 32).toNat = w at h1 h2 hpos hlt
+  have hxw : ∃ k : Int, x = (w : Int) + 2 ^ 32 * k := ⟨x / 2 ^ 32, by
+    have := Int.emod_add_mul_ediv x (2 ^ 32); omega⟩
+  obtain ⟨k, hk⟩ := hxw
+  have h32 : (2 : Int) ^ 32 = 2 ^ (t + 1) * 2 ^ (31 - t) := by
+    rw [← pow_add]; congr 1; omega
+  have hwI : (w : Int) = ((w / 2 ^ t : Nat) : Int) * 2 ^ t := by
+    conv_lhs => rw [h1]
+    push_cast; ring
+  have hc : ((w / 2 ^ t : Nat) : Int) % 2 = 1 := by omega
+  generalize ((w / 2 ^ t : Nat) : Int) = c at hwI hc
+  generalize (2 : Int) ^ (31 - t) = Q at h32
+  constructor
+  · rw [hk, h32, hwI, pow_succ]
+    exact Dvd.intro (c + 2 * Q * k) (by ring)
+  · intro hd
+    rw [hk, h32, hwI, pow_succ] at hd
+    obtain ⟨m, hm⟩ := hd
+    have h2t : (2 : Int) ^ t ≠ 0 := by positivity
+    have : c + 2 * (Q * k) = 2 * m := by
+      apply Int.eq_of_mul_eq_mul_left h2t
+      linear_combination hm
+    omega
+/-- NEGATION of the full statement (finding, feeds C04): when 2^32 | x the result is 0, e.g. x = 2^32 -/
+theorem two_adic_valuation_truncates (x : Int) (h : x % 2 ^ 32 = 0) : twoAdicValuationOfIbz x = 0 := by
+  rw [twoAdicValuationOfIbz_eq, if_pos h]
+example : twoAdicValuationOfIbz (2 ^ 32) = 0 ∧ (2 : Int) ^ 32 ∣ 2 ^ 32 ∧ twoAdicValuationOfIbz 48 = 4 := by decide
+
 end SqiProps.C17
